@@ -16,6 +16,8 @@ class PullLog:
     __slots__ = ('n', 'budget', 'pulls', 'sites', 'iters', 'lens', 'stops', 'over',
                  'site', 'opt_calls', 'negative')
 
+    STOP_BUDGET = 1000
+
     def __init__(self, n, budget):
         self.n = n                # number of elements the source can produce; None = unbounded
         self.budget = budget
@@ -33,6 +35,9 @@ class PullLog:
         """Produce element ``i``; False when the source is exhausted."""
         if self.n is not None and i >= self.n:
             self.stops += 1
+            if self.stops > self.STOP_BUDGET:     # asked again and again after exhaustion
+                self.over = True
+                raise PullBudgetExceeded('exhausted source asked %d times' % self.stops)
             return False
         if len(self.pulls) >= self.budget:
             self.over = True
